@@ -76,7 +76,8 @@ def generate(prop, rng):
         for _ in range(rng.randint(0, 4)):
             kind = rng.choice(["add", "replace", "delete"])
             if kind == "add":
-                n = rng.choice(["n1", "d/n2", "z/n3"])
+                # (the last two look exactly like the temporary file an interrupted copy leaves behind)
+                n = rng.choice(["n1", "d/n2", "z/n3", ".Zq3xT7pLm9KcVb2NwRs8Ya.tmp", "d/.aB-_0123456789cdefghijk.tmp"])
                 edits.append({"op": "add", "rel": n, "content": rng.randrange(len(pool))})
             else:
                 if not trees[prior]:
@@ -612,8 +613,10 @@ def _exec_c10(sc, ctx, env):
     n_before = nsaved[0]
     ev_first = len(seam.events)
     rmf = cfg.get("ws_rm_fault")
-    if rmf:
-        seam.faults = [{"at": ("unlink", "remove", "rmtree"), "match": "ws/", "sub": True, "nth": rmf["nth"], "exc": rmf["exc"],
+    if rmf and prior_t and not single:
+        # ONE file that is in the workspace beforehand cannot be removed (immutable / busy)
+        victim = sorted(prior_t)[rmf["nth"] % len(prior_t)]
+        seam.faults = [{"at": ("unlink", "remove"), "match": "ws/out/" + victim, "nth": 1, "exc": rmf["exc"],
                         "name": "ws_remove", "count": 1, "sticky": True}]
     try:
         checkout(path, env.w.localfs, obj_for(sc["target"]), env.odb, force=True, state=env.state)
